@@ -341,6 +341,10 @@ func c07Import(e *Env, work string) {
 		{"INSERT INTO t VALUES ('a;b')", "SELECT 1"},
 		{"CREATE TABLE t (\n  c int,\n  d text\n)", "SELECT 2"},
 		{"SELECT 'x'", "SELECT 'y -- z'", "SELECT 3"},
+		// a literal over several lines whose lines end in a blank / a tab (part of the value)
+		{"INSERT INTO t VALUES ('line one \nline two\t\n end')", "SELECT 4"},
+		// words of the formats' own section markers inside ordinary statements
+		{"CREATE TABLE downloads (\n  id int,\n  Downtime int,\n  up_votes int\n)", "ALTER TABLE downloads ADD COLUMN countdown int", "UPDATE t SET StatementBegin = 1, Up = 2", "SELECT 5"},
 	}
 	for _, after := range []string{"", " ", "\t"} {
 		for _, eol := range []string{"\n", "\r\n"} {
@@ -397,6 +401,13 @@ func c07Import(e *Env, work string) {
 					}
 					key := fmt.Sprintf("import:%s:%d:%q:%q", f.kind, si, eol, after)
 					e.Res.Count(key, true, "import:"+f.kind)
+					if err == nil && f.kind == "goose" && si == 4 && norm(got) != norm(want) {
+						// known finding: the goose reader right-trims every line, also inside a literal
+						e.Res.Violate("failing-input", "goose-reader-trims-line-ends",
+							fmt.Sprintf("goose directory (eol %q, %q after ';'): read back %s, file holds %s", eol, after, norm(got), norm(want)),
+							"Props.C07 import", map[string]any{"kind": f.kind, "content": f.content, "got": got})
+						continue
+					}
 					if err != nil || norm(got) != norm(want) {
 						e.Res.Violate("failing-input", "third-party-dir-sequence-not-preserved",
 							fmt.Sprintf("%s directory (eol %q, %q after ';'): read back %s (err %v), file holds %s", f.kind, eol, after, norm(got), err, norm(want)),
@@ -404,6 +415,72 @@ func c07Import(e *Env, work string) {
 					}
 				}
 			}
+		}
+	}
+}
+
+// c07DirOrder: a third-party directory with several files is read in the order of its versions - compared part
+// by part as numbers, whatever the width of the parts (flyway: V9_10 < V10_1, V1.9.10 < V1.10.0; the other
+// formats are ordered by file name).
+func c07DirOrder(e *Env, work string) {
+	type tc struct {
+		kind  string
+		files []string // in the expected order
+	}
+	for ti, c := range []tc{
+		{"flyway", []string{"V9_10__a.sql", "V10_1__b.sql", "V10_2__c.sql", "V100__d.sql"}},
+		{"flyway", []string{"V1.9.10__a.sql", "V1.10.0__b.sql", "V1.10.1__c.sql", "V2__d.sql"}},
+		{"flyway", []string{"V1__a.sql", "V1_1__b.sql", "V2__c.sql", "V10__d.sql"}},
+		{"flyway", []string{"V2__a.sql", "V11__b.sql", "V20240101__c.sql"}},
+		// (the other formats are listed by file name, as Atlas's own directories are: zero-padded versions)
+		{"golang-migrate", []string{"009_a.up.sql", "010_b.up.sql", "100_c.up.sql"}},
+		{"goose", []string{"009_a.sql", "010_b.sql", "100_c.sql"}},
+		{"dbmate", []string{"009_a.sql", "010_b.sql", "100_c.sql"}},
+	} {
+		dir, err := os.MkdirTemp(work, "c07o")
+		if err != nil {
+			continue
+		}
+		for i, n := range c.files {
+			body := fmt.Sprintf("SELECT %d;\n", i)
+			switch c.kind {
+			case "goose":
+				body = "-- +goose Up\n" + body
+			case "dbmate":
+				body = "-- migrate:up\n" + body
+			}
+			os.WriteFile(filepath.Join(dir, n), []byte(body), 0o644)
+		}
+		var d migrate.Dir
+		switch c.kind {
+		case "golang-migrate":
+			d, err = sqltool.NewGolangMigrateDir(dir)
+		case "goose":
+			d, err = sqltool.NewGooseDir(dir)
+		case "flyway":
+			d, err = sqltool.NewFlywayDir(dir)
+		case "dbmate":
+			d, err = sqltool.NewDBMateDir(dir)
+		}
+		var got, stmts []string
+		if err == nil {
+			var fs []migrate.File
+			if fs, err = d.Files(); err == nil {
+				for _, f := range fs {
+					got = append(got, f.Name())
+					ss, _ := f.Stmts()
+					stmts = append(stmts, ss...)
+				}
+			}
+		}
+		os.RemoveAll(dir)
+		e.Res.Count(fmt.Sprintf("dir-order:%d", ti), true, "import:"+c.kind, "dir-order")
+		var want []string
+		for i := range c.files {
+			want = append(want, fmt.Sprintf("SELECT %d;", i))
+		}
+		if err != nil || strings.Join(got, ",") != strings.Join(c.files, ",") || strings.Join(stmts, "|") != strings.Join(want, "|") {
+			e.Res.Violate("failing-input", "third-party-dir-order-wrong", fmt.Sprintf("%s directory %v: files are read as %v (statements %v, err %v)", c.kind, c.files, got, stmts, err), "Props.C07 import (order of the files)", map[string]any{"kind": c.kind, "files": c.files, "got": got})
 		}
 	}
 }
@@ -475,6 +552,7 @@ func runC07(e *Env) error {
 	}
 	if e.Replay == "" {
 		c07Import(e, work)
+		c07DirOrder(e, work)
 	}
 	parallel(e.Workers, len(cases), func(i int) {
 		c := cases[i]
